@@ -68,7 +68,7 @@ def tie_rule(chk, db):
 FIXTURE = os.path.join(D.VERIF, "fixtures", "iter_pos.hpp")
 
 
-META_EXTRA = 'IT3 (returned output cursor is advanced after its last write); IT4 (downward scans visit the first element); IT5 (`if constexpr` alternatives consult the same range ends); TIE-ELEM (min/max/minmax_element replace their holder in exactly the specified orderings); MERGE3 (one step of the merge-like algorithms per ordering of the heads); BISECT (one symbolic step of every bisection loop leaves [first+step+1, first+count) or [first, first+step)); IT4i (index-form downward scans reach index 0); OUTSTEP (an output cursor is stepped only after a write); RESUME (pattern searches move their candidate by one); RUN (typestate none/current/stale of a remembered run start against resets of the run counter, fixed point over the loop); END2 (what equal / lexicographical_compare answer per end state of their lockstep scan); SHIFTRET (positions shift_left / shift_right return in the do-nothing cases, all (n, length) up to 4); PARAM.'
+META_EXTRA = 'IT3 (returned output cursor is advanced after its last write); IT4 (downward scans visit the first element); IT5 (`if constexpr` alternatives consult the same range ends); TIE-ELEM (min/max/minmax_element replace their holder in exactly the specified orderings); MERGE3 (one step of the merge-like algorithms per ordering of the heads); BISECT (one symbolic step of every bisection loop leaves [first+step+1, first+count) or [first, first+step)); IT4i (index-form downward scans reach index 0); OUTSTEP (an output cursor is stepped only after a write); RESUME (pattern searches move their candidate by one); RUN (typestate none/current/stale of a remembered run start against resets of the run counter, fixed point over the loop); STABLE (an insertion step shifts only past strictly greater elements, evaluated per ordering); IT1n (counted ranges are touched only where the count is positive); END2 (what equal / lexicographical_compare answer per end state of their lockstep scan); SHIFTRET (positions shift_left / shift_right return in the do-nothing cases, all (n, length) up to 4); PARAM.'
 META = (META[0] + " " + META_EXTRA, META[1])
 
 
@@ -80,7 +80,7 @@ def run(chk, tier):
     _ITX.reverse_index_area(chk, db, ['_algorithm/', '_numeric/'])      # IT4i: downward index scans reach index 0
     _ITX.resume_area(chk, db, ['_algorithm/'])      # RESUME: pattern searches try every candidate position
     nsr = 0
-    for nm in ("etl::shift_left", "etl::shift_right"):
+    for nm in ("etl::shift_left", "etl::shift_right", "etl::rotate"):
         for f0 in db.by_q.get(nm, []):
             for node, ok, msg in _ITX.check_shift_returns(f0):
                 nsr += 1
@@ -109,6 +109,17 @@ def run(chk, tier):
                 chk.violation("END2", label, "end-state-answer", "%s: %s" % (astx.loc(f0, node), msg), {"where": astx.loc(f0)})
             elif ok is None:
                 chk.unknown_instance("END2", label, msg)
+    _ITX.counted_area(chk, db, ['_algorithm/', '_numeric/'], floor=2)      # IT1n
+    _ITX.equal_range_area(chk, db, ['_algorithm/'])      # EQRANGE: equal_range = (lower_bound, upper_bound)
+    for f0 in [g for g in db.funcs if g["file"].startswith("_algorithm/") and g.get("body") is not None and "sort" in g["n"]]:
+        for s0, ok, msg in _ITX.check_insertion_step(f0):
+            label = "%s :: insertion loop at line %s" % (astx.sig(f0), s0.get("line"))
+            chk.instance("STABLE")
+            chk.obligation("STABLE", label, ok, evaluations=3)
+            if ok is False:
+                chk.violation("STABLE", label, "insertion-step", "%s: %s" % (astx.loc(f0, s0), msg), {"where": astx.loc(f0)})
+            elif ok is None:
+                chk.unknown_instance("STABLE", label, msg)
     _ITX.bisect_area(chk, db, ['_algorithm/'])      # BISECT: one bisection step keeps exactly the half that can hold the answer
     funcs = [f for f in db.funcs if (f["file"].startswith("_algorithm/") or f["file"].startswith("_numeric/")) and f.get("kind") == "function"]
     n_scan = n_cursors = 0
